@@ -289,6 +289,133 @@ static void cmd_parse(toks *t) {
     free(o); h_free(ws); h_free(eol); h_free(c.prog_idx); h_free(c.prog_resp); h_free(c.log.s); h_free(c.errs.s);
 }
 
+/* ---------- C03: the error-callback contract, evaluated in-process for one input and one option set ----------
+ * contract B<n> target=none|new|C<k> [option k=v as for parse] : runs the all-accepting parse, then every single-rejection
+ * policy, the built-in abort handler and a NULL callback, and checks the invariants of the contract. */
+typedef struct { int nerr; int codes[64]; int reject_at, reject_mode, reject_code; int bad_line; int after_reject; } cctx;
+static int contract_cb(int code, size_t line, size_t column, const UChar *text, size_t length, void *data) {
+    cctx *c = (cctx *) data; (void) column;
+    if (c->reject_at && c->nerr >= c->reject_at) c->after_reject += 1;
+    if (c->nerr < 64) c->codes[c->nerr] = code;
+    c->nerr += 1;
+    if (line < 1) c->bad_line += 1;
+    if (text) { size_t i; volatile unsigned acc = 0; for (i = 0; i < length; i++) acc += text[i]; (void) acc; }
+    if (c->reject_at && c->nerr == c->reject_at) {
+        c->reject_code = (c->reject_mode == 0) ? CIF_CLIENT_ERROR : (c->reject_mode == 1) ? code : -1;
+        return c->reject_code;
+    }
+    return 0;
+}
+static int defined_code(int rc) {
+    static const int codes[] = { 0, 1, 2, 3, 4, 5, 6, 7, 8, 9, 10, 11, 12, 13, 21, 22, 23, 31, 32, 33, 34, 35, 36, 37, 41, 42, 43, 44, 52, 53, 62, 72, 73, 74,
+        102, 103, 104, 105, 106, 107, 108, 109, 110, 113, 122, 123, 124, 126, 132, 133, 134, 135, 136, 137, 138, 139, 140 };
+    size_t i; for (i = 0; i < sizeof codes / sizeof codes[0]; i++) if (codes[i] == rc) return 1; return 0;
+}
+static int q_cif(cif_tp *c, void *d) { (void) c; (void) d; return 0; }
+static int q_cont(cif_container_tp *c, void *d) { (void) c; (void) d; return 0; }
+static int q_loop(cif_loop_tp *c, void *d) { (void) c; (void) d; return 0; }
+static int q_pkt(cif_packet_tp *c, void *d) { (void) c; (void) d; return 0; }
+static int q_item(UChar *n, cif_value_tp *v, void *d) { (void) n; (void) d; if (v) (void) cif_value_kind(v); return 0; }
+static cif_handler_tp QUIET_HANDLER = { q_cif, q_cif, q_cont, q_cont, q_cont, q_cont, q_loop, q_loop, q_pkt, q_pkt, q_item };
+static void contract_opts(toks *t, struct cif_parse_opts_s *o, char **ws, char **eol) {
+    const char *v; unsigned char *tmp;
+    if ((v = kv(t, "p2"))) o->prefer_cif2 = atoi(v);
+    if ((v = kv(t, "fold"))) o->line_folding_modifier = atoi(v);
+    if ((v = kv(t, "prefix"))) o->text_prefixing_modifier = atoi(v);
+    if ((v = kv(t, "depth"))) o->max_frame_depth = atoi(v);
+    if ((v = kv(t, "force"))) o->force_default_encoding = atoi(v);
+    if ((v = kv(t, "enc"))) o->default_encoding_name = v;
+    if ((v = kv(t, "ws"))) { size_t n = hex_to_bytes(v, &tmp); tmp[n] = 0; *ws = (char *) tmp; o->extra_ws_chars = *ws; }
+    if ((v = kv(t, "eol"))) { size_t n = hex_to_bytes(v, &tmp); tmp[n] = 0; *eol = (char *) tmp; o->extra_eol_chars = *eol; }
+    if ((v = kv(t, "h")) && atoi(v)) o->handler = &QUIET_HANDLER;
+}
+static int contract_run(bytebuf *b, struct cif_parse_opts_s *o, int use_opts, int mode, cif_tp **keep, obuf *prob, const char *what) {
+    /* mode 0: syntax only; 1: new CIF (destroyed or handed back through keep); 2: into *keep (existing) */
+    FILE *f = fmemopen(b->n ? (void *) b->p : (void *) "", b->n, "rb"); cif_tp *cif = NULL; int rc;
+    if (!f) return -1000;
+    if (mode == 2) cif = *keep;
+    rc = cif_parse(f, use_opts ? o : NULL, mode == 0 ? NULL : &cif);
+    fclose(f);
+    if (mode == 1) { if (keep) *keep = cif; else if (cif) { int d = cif_destroy(cif); if (d != CIF_OK) ob_printf(prob, "\"%s: cif_destroy after the parse returned %d\",", what, d); } }
+    return rc;
+}
+static void post_conditions(cif_tp *cif, obuf *prob, const char *what) {
+    /* the target must be walkable, writable, modifiable and destroyable */
+    pctx w; char *mem = NULL; size_t memn = 0; FILE *f; cif_block_tp *b = NULL; int rc; static const UChar code[] = { 'z', 'z', 'p', 'o', 's', 't', 0 };
+    obuf scratch = {0, 0, 0};
+    memset(&w, 0, sizeof w); w.first = 1;
+    (void) cif_walk(cif, &HANDLER, &w);
+    if (sqlite3_get_autocommit(cif->db) != 1) ob_printf(prob, "\"%s: a transaction is left open after walking the target\",", what);
+    f = open_memstream(&mem, &memn); (void) cif_write(f, NULL, cif); fclose(f); h_free(mem);
+    rc = cif_create_block(cif, code, &b);
+    if (rc == CIF_OK) { if ((rc = cif_container_destroy(b)) != CIF_OK) ob_printf(prob, "\"%s: destroying a new block of the target returned %d\",", what, rc); }
+    else if (rc != CIF_DUP_BLOCKCODE) ob_printf(prob, "\"%s: cif_create_block on the target returned %d\",", what, rc);
+    (void) dump_cif(&scratch, cif); h_free(scratch.s);
+    h_free(w.log.s);
+}
+static void cleanup_target(cif_tp *cif) {
+    /* remove what a parse added: every block whose code does not start with "pre" */
+    cif_block_tp **bs = NULL; int i;
+    if (cif_get_all_blocks(cif, &bs) != CIF_OK) return;
+    for (i = 0; bs[i]; i++) { UChar *cd = NULL; int keepit = 0;
+        if (cif_container_get_code(bs[i], &cd) == CIF_OK && cd) { keepit = (cd[0] == 'p' && cd[1] == 'r' && cd[2] == 'e'); free(cd); }
+        if (keepit) cif_container_free(bs[i]); else (void) cif_container_destroy(bs[i]); }
+    free(bs);
+}
+static void cmd_contract(toks *t) {
+    struct cif_parse_opts_s *o = NULL; char *ws = NULL, *eol = NULL; cctx c; int bi, rc0, k, mode = 0, tci = -1, n; long live0 = wrap_live();
+    const char *tg = kv(t, "target"); obuf prob = {0, 0, 0}; int default_opts;
+    if (t->n < 2 || (bi = slot(t->tok[1], 'B', NBUF)) < 0) { ob_puts(&OUT, "ERR usage"); return; }
+    if (tg && strcmp(tg, "new") == 0) mode = 1; else if (tg && tg[0] == 'C') { mode = 2; tci = slot(tg, 'C', NCIF); if (tci < 0 || !CIFS[tci]) { ob_puts(&OUT, "ERR target"); return; } }
+    if (cif_parse_options_create(&o) != CIF_OK) { ob_puts(&OUT, "ERR options"); return; }
+    contract_opts(t, o, &ws, &eol);
+    default_opts = (t->n == 2 || (t->n == 3 && tg));
+    o->user_data = &c; o->error_callback = contract_cb;
+    /* 1. all-accepting run */
+    memset(&c, 0, sizeof c);
+    if (mode == 2) { rc0 = contract_run(&BUF[bi], o, 1, 2, &CIFS[tci], &prob, "accept-all"); post_conditions(CIFS[tci], &prob, "accept-all"); cleanup_target(CIFS[tci]); }
+    else if (mode == 1) { cif_tp *nc = NULL; rc0 = contract_run(&BUF[bi], o, 1, 1, &nc, &prob, "accept-all"); if (nc) { int d; post_conditions(nc, &prob, "accept-all"); d = cif_destroy(nc); if (d != CIF_OK) ob_printf(&prob, "\"cif_destroy of the new target returned %d\",", d); } }
+    else rc0 = contract_run(&BUF[bi], o, 1, 0, NULL, &prob, "accept-all");
+    n = c.nerr;
+    if (c.bad_line) ob_printf(&prob, "\"%d error callback(s) carried a line number below 1\",", c.bad_line);
+    if (!(rc0 == CIF_OK || (rc0 > 0 && defined_code(rc0)))) ob_printf(&prob, "\"accept-all parse returned %d, which is not a defined result code\",", rc0);
+    if (rc0 != CIF_OK && n == 0 && !kv(t, "invalidopts")) ob_printf(&prob, "\"the parse failed with %d without having reported any error to the callback\",", rc0);
+    ob_printf(&OUT, "{\"n\":%d,\"rc0\":%d,\"codes\":[", n, rc0);
+    for (k = 0; k < n && k < 64; k++) ob_printf(&OUT, "%s%d", k ? "," : "", c.codes[k]);
+    ob_puts(&OUT, "],");
+    /* 2. every single rejection */
+    { int first_code = n ? c.codes[0] : 0, kmax = n < 10 ? n : 10, m;
+      for (k = 1; k <= kmax; k++) for (m = 0; m < 3; m++) {
+          cctx r; int rc, expect_code = (k <= 64) ? c.codes[k - 1] : 0;
+          memset(&r, 0, sizeof r); r.reject_at = k; r.reject_mode = m; o->user_data = &r;
+          rc = contract_run(&BUF[bi], o, 1, mode, mode == 2 ? &CIFS[tci] : NULL, &prob, "rejecting");
+          if (mode == 2) cleanup_target(CIFS[tci]);
+          if (r.nerr != k || r.after_reject) ob_printf(&prob, "\"%s error #%d: %d callback(s) were made in total (%d after the rejection)\",", m == 2 ? "negative answer (-1) to" : "rejecting", k, r.nerr, r.after_reject);
+          if (r.nerr >= k && k <= 64 && r.codes[k - 1] != expect_code) ob_printf(&prob, "\"error #%d is code %d in one run and %d in another\",", k, expect_code, r.codes[k - 1]);
+          if (m == 0 && rc != CIF_CLIENT_ERROR) ob_printf(&prob, "\"callback returned CIF_CLIENT_ERROR at error #%d but cif_parse returned %d\",", k, rc);
+          if (m == 1 && rc != expect_code) ob_printf(&prob, "\"callback returned the reported code %d at error #%d but cif_parse returned %d\",", expect_code, k, rc);
+          if (m == 2 && !(rc == CIF_OK || rc == -1 || (rc > 0 && defined_code(rc)))) ob_printf(&prob, "\"callback returned -1 at error #%d and cif_parse returned %d\",", k, rc);
+      }
+      /* 3. the built-in abort handler, and no handler at all */
+      { int rc; o->error_callback = cif_parse_error_die; o->user_data = NULL;
+        rc = contract_run(&BUF[bi], o, 1, mode, mode == 2 ? &CIFS[tci] : NULL, &prob, "die"); if (mode == 2) cleanup_target(CIFS[tci]);
+        if (rc != (n ? first_code : rc0)) ob_printf(&prob, "\"with cif_parse_error_die cif_parse returned %d; the first code of the all-accepting parse is %d (rc %d)\",", rc, first_code, rc0);
+        o->error_callback = NULL;
+        rc = contract_run(&BUF[bi], o, 1, mode, mode == 2 ? &CIFS[tci] : NULL, &prob, "null-callback"); if (mode == 2) cleanup_target(CIFS[tci]);
+        if (rc != (n ? first_code : rc0)) ob_printf(&prob, "\"with a NULL error callback cif_parse returned %d; expected %d\",", rc, n ? first_code : rc0);
+        if (default_opts) { rc = contract_run(&BUF[bi], o, 0, mode, mode == 2 ? &CIFS[tci] : NULL, &prob, "null-options"); if (mode == 2) cleanup_target(CIFS[tci]);
+            if (rc != (n ? first_code : rc0)) ob_printf(&prob, "\"with NULL options cif_parse returned %d; expected %d\",", rc, n ? first_code : rc0); }
+        o->error_callback = cif_parse_error_ignore;
+        rc = contract_run(&BUF[bi], o, 1, mode, mode == 2 ? &CIFS[tci] : NULL, &prob, "ignore"); if (mode == 2) cleanup_target(CIFS[tci]);
+        if (rc != rc0) ob_printf(&prob, "\"with cif_parse_error_ignore cif_parse returned %d; the all-accepting parse returned %d\",", rc, rc0);
+      } }
+    free(o); h_free(ws); h_free(eol);
+    if (wrap_available() && mode != 2 && wrap_live() != live0) ob_printf(&prob, "\"%ld allocation(s) made during the parses were not released\",", wrap_live() - live0);
+    if (prob.n && prob.s[prob.n - 1] == ',') prob.s[--prob.n] = 0;
+    ob_printf(&OUT, "\"problems\":[%s]}", prob.s ? prob.s : "");
+    h_free(prob.s);
+}
+
 /* walk C<n> [prog=...] [null=<mask of NULL handler members>] */
 static void cmd_walk(toks *t) {
     pctx c; int ci = slot(t->tok[1], 'C', NCIF), rc; cif_handler_tp h = HANDLER; const char *v;
@@ -592,6 +719,7 @@ static void exec_cmd(toks *t) {
           if (OUT.n && OUT.s[OUT.n - 1] == '}') { OUT.n -= 1; OUT.s[OUT.n] = 0; ob_puts(&OUT, ",\"dump\":"); dump_cif(&OUT, CIFS[ci]); ob_putc(&OUT, '}'); }
           if (cif_get_all_blocks(CIFS[ci], &bs) == CIF_OK) { for (i = 0; bs[i]; i++) (void) cif_container_destroy(bs[i]); free(bs); }
         } return; }
+    if (strcmp(c, "contract") == 0) { cmd_contract(t); return; }
     if (strcmp(c, "parse") == 0) { cmd_parse(t); return; }
     if (strcmp(c, "walk") == 0) { NEED(2); cmd_walk(t); return; }
     if (strcmp(c, "write") == 0) { NEED(3); cmd_write(t); return; }
